@@ -9,7 +9,7 @@
 (* is a list of uses) and - for main - a body of statements:               *)
 (*    use n        a call  n(0)                                            *)
 (*    quse p n     a call  p.n(0)  through a namespace prefix              *)
-(*    let n        let n = <lambda printing "L<line>.n">                   *)
+(*    let n        let n: int -> void = <lambda printing "L<line>.n">      *)
 (*    scope kind b body    a nested scope (block, if, while, for, match),  *)
 (*                 optionally binding b (let at the start of the body for  *)
 (*                 block/if/while, the pattern variable for for/match)     *)
@@ -186,13 +186,13 @@ Walk1(C, s, st) ==
              IN [Tag(c, "enum") EXCEPT !.out = @ \o r.file \o "." \o s.n \o "\n"]
     [] s.k = "let" ->
         LET label == "L" \o LineNo(st) \o "." \o s.n
-        IN Bind(Put(st, "let " \o s.n \o " = " \o Lam(label)), s.n, label)
+        IN Bind(Put(st, "let " \o s.n \o ": int -> void = " \o Lam(label)), s.n, label)
     [] s.k = "scope" ->
         LET ln == LineNo(st)
             label == "L" \o ln \o "." \o s.b
             pat == IF s.b = "" THEN "_" ELSE s.b
             patScope == IF s.b = "" THEN EmptyScope ELSE [bind |-> (s.b :> label), taint |-> {}]
-            letFirst(x) == IF s.b = "" THEN x ELSE Bind(Put(x, "let " \o s.b \o " = " \o Lam("L" \o LineNo(x) \o "." \o s.b)),
+            letFirst(x) == IF s.b = "" THEN x ELSE Bind(Put(x, "let " \o s.b \o ": int -> void = " \o Lam("L" \o LineNo(x) \o "." \o s.b)),
                                                         s.b, "L" \o LineNo(x) \o "." \o s.b)
         IN CASE s.kind = "block" ->
                   Pop(Put(WalkS(C, s.body, letFirst(Push(Put(st, "{"), EmptyScope))), "}"))
